@@ -366,6 +366,30 @@ class Check(Property):
                     r_, s_ = out3(lambda: op(num, fl.Quantity(db, "decibel"))), out3(lambda: op(num, fl.Quantity(pure, "")))
                     if a_ != b_ or r_ != s_:
                         v.append(f"C03 {db} dB {name} {num}: {a_} / reflected {r_}; the same number without a unit ({pure:.4g}): {b_} / {s_}")
+        # (7) array magnitudes, in-place + and - while a context is active: across dimensions still a DimensionalityError (the
+        # context converts on request only), and within one dimension the same result as the plain form and as with no context
+        for cx, ua, ub in (("sp", "nanometer", "terahertz"), ("sp", "terahertz", "nanometer"), ("boltzmann", "kelvin", "joule"),
+                           ("sp", "nanometer", "micrometer"), ("sp", "degree_Celsius", "delta_degree_Celsius"), ("energy", "kelvin", "delta_degree_Fahrenheit")):
+            for name, iop_, pop_ in (("+=", operator.iadd, operator.add), ("-=", operator.isub, operator.sub)):
+                def out4(fn):
+                    try:
+                        q = fn()
+                        return ("ok", [round(float(x), 9) for x in q.magnitude], str(q.units))
+                    except Exception as exc:  # noqa: BLE001
+                        return ("err", type(exc).__name__)
+
+                def mk():
+                    return fl.Quantity(np.array([500.0, 600.0]), ua), fl.Quantity(np.array([1.0, 2.0]), ub)
+                with fl.context(cx):
+                    inpl, plain = out4(lambda: iop_(*mk())), out4(lambda: pop_(*mk()))
+                outside = out4(lambda: pop_(*mk()))
+                same_dim = fl.get_dimensionality(ua) == fl.get_dimensionality(ub)
+                if not same_dim and inpl != ("err", "DimensionalityError"):
+                    v.append(f"C03 [500, 600] {ua} {name} [1, 2] {ub} inside the active context {cx!r} gives {inpl}: quantities of different "
+                             f"dimensionality must raise DimensionalityError")
+                elif inpl != plain or plain != outside:
+                    v.append(f"C03 [500, 600] {ua} {name} [1, 2] {ub}: in place inside the context {cx!r} {inpl}, plain form inside {plain}, "
+                             f"plain form with no context {outside}")
         return v[:12]
 
     def oracle(self, c):
